@@ -274,7 +274,7 @@ func (sh *shadow) after(r *hx.Run, w *world, op []string, pre, post *snapshot, c
 		sh.poolInvariants(r, w, name, op, pre, post, cr)
 	}
 	// ------------------------------------------------------------------ votes (C25)
-	if name == "vote" || name == "sig" {
+	if name == "vote" || name == "sig" || name == "deposit" {
 		sh.votes(r, name, op, pre, cr)
 	}
 }
@@ -454,6 +454,9 @@ func (sh *shadow) votes(r *hx.Run, name string, op []string, pre *snapshot, cr c
 	if name == "vote" {
 		id = "vote|" + op[2]
 		a, _ = parseAddr(op[3])
+	} else if name == "deposit" {
+		id = "vote|" + op[6]
+		a, _ = parseAddr(op[2])
 	} else {
 		id = "sig|" + op[6]
 		a, _ = parseAddr(op[2])
@@ -467,17 +470,17 @@ func (sh *shadow) votes(r *hx.Run, name string, op []string, pre *snapshot, cr c
 		}
 	}
 	cons := pre.consensusAddrs()
-	firedNow := !cr.err && (name == "vote" && cr.ret == "1" || name == "sig" && cr.fired("AddSignatureQuorum"))
+	firedNow := !cr.err && ((name == "vote" || name == "deposit") && cr.ret == "1" || name == "sig" && cr.fired("AddSignatureQuorum"))
 	if firedNow && sh.released[id] {
 		r.Viol("C25:released-twice:"+name, fmt.Sprintf("%s: quorum outcome produced a second time for %s", name, id))
 	}
-	if name == "sig" && !witness {
+	if (name == "sig" || name == "deposit") && !witness {
 		if !cr.err {
-			r.Viol("C25:signature-accepted-without-witness", "AddSignature accepted a signature for an address that did not sign the transaction")
+			r.Viol("C25:vote-accepted-without-witness:"+name, name+" accepted a vote for an address that did not sign the transaction")
 		}
 		return
 	}
-	if name == "vote" && sh.released[id] {
+	if (name == "vote" || name == "deposit") && sh.released[id] {
 		if firedNow {
 			return
 		}
@@ -491,6 +494,20 @@ func (sh *shadow) votes(r *hx.Run, name string, op []string, pre *snapshot, cr c
 			r.Viol("C25:outsider-vote-accepted:"+name, fmt.Sprintf("%s by %s, which is not a current consensus validator, was accepted", name, ahex(a)))
 		}
 		return
+	}
+	if cr.err && name == "deposit" {
+		// allowed only when this vote reaches the quorum and the released message cannot be handed on (payload
+		// undecodable or source transaction already done): the whole transaction is reverted, the vote is not recorded
+		tentative := 0
+		for x := range cons {
+			if sh.voters[id][x] || x == a {
+				tentative++
+			}
+		}
+		if tentative >= ceil23(len(cons)) {
+			r.Hist("deposit.reverted-after-quorum")
+			return
+		}
 	}
 	if cr.err {
 		r.Viol("C25:validator-vote-rejected:"+name, fmt.Sprintf("%s by consensus validator %s was rejected", name, ahex(a)))
